@@ -52,8 +52,8 @@ class Likelihood(ABC):
         else:
             raise ValueError("Given forward_model_jacobian object must be callable")
 
-        self.y = array(y_data).squeeze()
-        _uncertainties = array(uncertainties).squeeze()
+        self.y = array(y_data, dtype=float).squeeze()
+        _uncertainties = array(uncertainties, dtype=float).squeeze()
         setattr(self, uncertainties_name, _uncertainties)
         self.model = forward_model
 
